@@ -250,6 +250,8 @@ type Attr struct {
 	// Field: the key of a map / kv attribute is spelled as the Go field name ("Name") instead of the column
 	// name ("name") - schema.LookUpField accepts both (Attrs and Assign only)
 	Field bool
+	// Nil: the value is an untyped nil ("set this column to NULL"; map and key-value forms, not the unique column)
+	Nil bool
 }
 
 // key is the attribute's name as the caller spells it.
@@ -296,6 +298,9 @@ func (a Attr) String() string {
 	}
 	if a.L != nil {
 		return fmt.Sprintf("%s:%s IN %v", a.Form, a.Col, a.L)
+	}
+	if a.Nil {
+		return fmt.Sprintf("%s:%s=nil", a.Form, a.key())
 	}
 	if a.Col == "age" {
 		return fmt.Sprintf("%s:%s=%d", a.Form, a.key(), a.I)
@@ -409,13 +414,18 @@ func attrArgs(a Attr, kind int) []interface{} {
 			if x == nil {
 				continue
 			}
-			if x.Col == "age" {
+			if x.Nil {
+				mv[x.key()] = nil
+			} else if x.Col == "age" {
 				mv[x.key()] = x.I
 			} else {
 				mv[x.key()] = x.S
 			}
 		}
 		return []interface{}{mv}
+	}
+	if a.Nil {
+		return []interface{}{a.key(), nil}
 	}
 	if a.Col == "age" {
 		return []interface{}{a.key(), a.I}
@@ -915,6 +925,11 @@ func expect(m *Model, o Op) (exp Outcome) {
 			defer set(r, *a.More)
 		}
 		r.Nulls &^= nullBit(a.Col)
+		if a.Nil {
+			// in memory the field becomes its zero value; an UPDATE built from it stores NULL
+			r.Nulls |= nullBit(a.Col)
+			a.S, a.I = "", 0
+		}
 		switch a.Col {
 		case "name":
 			r.Name = a.S
@@ -963,6 +978,7 @@ func expect(m *Model, o Op) (exp Outcome) {
 	if o.Kind == "firstorinit" {
 		return Outcome{Out: r, OutValid: true}
 	}
+	r.Nulls = 0 // the record is created from the struct, whose fields cannot carry NULL: zero values are stored
 	if m.byCode(r.Code) != nil {
 		return Outcome{Err: true}
 	}
@@ -1206,6 +1222,9 @@ func genAttr(t *rapid.T, label string, cols []string, allowZero bool) Attr {
 	default:
 		a.S = rapid.SampledFrom([]string{"x", "y", "z"}).Draw(t, label+".s")
 	}
+	if zeroOK && a.Col != "code" && (label == "attrs" || label == "assign" || strings.HasSuffix(label, ".more")) {
+		a.Nil = rapid.IntRange(0, 5).Draw(t, label+".nil") == 0
+	}
 	if a.Form != "kv" && len(cols) > 1 && label != "" && !strings.HasSuffix(label, ".more") && rapid.IntRange(0, 2).Draw(t, label+".two") == 0 {
 		var rest []string
 		for _, c := range cols {
@@ -1215,6 +1234,9 @@ func genAttr(t *rapid.T, label string, cols []string, allowZero bool) Attr {
 		}
 		m := genAttr(t, label+".more", rest, allowZero)
 		m.Form, m.More = a.Form, nil
+		if a.Form == "struct" {
+			m.Nil = false // a struct field cannot carry nil
+		}
 		if a.Form == "struct" && m.Col == "age" && m.I == 0 {
 			m.I = 1 // a zero struct field is "not given"
 		}
